@@ -39,19 +39,20 @@ case "${1:-}" in
     export VERIF_EVIDENCE_DIR="$SIM/target/tmp/seeded-evidence"
     export VERIF_REPLAY_DIR="$SIM/target/tmp/seeded-replays"
     mkdir -p "$VERIF_EVIDENCE_DIR" "$VERIF_REPLAY_DIR"
-    if [ -n "$(git -C /repo status --porcelain --untracked-files=no)" ]; then echo "harness error: /repo has uncommitted changes" >&2; exit 2; fi
+    REPO="${VERIF_REPO:-/repo}"
+    if [ -n "$(git -C $REPO status --porcelain --untracked-files=no)" ]; then echo "harness error: $REPO has uncommitted changes" >&2; exit 2; fi
     for d in "$VERIF_DIR"/seeded/*/; do
       name=$(basename "$d")
       [ -n "$sel" ] && [ "$sel" != "$name" ] && continue
       [ -f "$d/patch.diff" ] || continue
       props=$(python3 -c "import json,sys; m=json.load(open(sys.argv[1])); print(' '.join(m.get('detected_by', [m['property']])))" "$d/meta.json")
-      if ! git -C /repo apply "$d/patch.diff"; then echo "$name: patch does not apply"; rc=1; continue; fi
+      if ! git -C $REPO apply "$d/patch.diff"; then echo "$name: patch does not apply"; rc=1; continue; fi
       found=""
       for p in $props; do
         out=$("$VERIF_DIR/check" $p quick 2>&1); code=$?
         if [ $code -eq 1 ] && echo "$out" | grep -q "^VIOLATION property=$p"; then found="$found $p"; fi
       done
-      git -C /repo checkout -- .
+      git -C $REPO checkout -- .
       if [ -n "$found" ]; then echo "$name: DETECTED by$found"; else echo "$name: MISSED (ran: $props)"; rc=1; fi
     done
     "$VERIF_DIR/check" build
